@@ -63,6 +63,8 @@ def join_program(n, rnd, fatal_at=None, nested=False):
     kinds = {}
     for k in range(1, n + 1):
         kind = rnd.choice(["leaf", "leaf", "quiet", "texts"] + (["mid"] if nested else []))
+        if k == fatal_at:
+            kind = "leaf"               # the thread which fails is one whose result somebody waits for
         kinds[k] = kind
         if kind == "leaf":
             ln = [rnd.randint(0, 9) for _ in range(rnd.randint(0, 3))]
@@ -90,9 +92,12 @@ def join_program(n, rnd, fatal_at=None, nested=False):
             kinds[k] = ("texts", "[%d, x]" % k)
     order = list(range(1, n + 1))
     rnd.shuffle(order)
+    if fatal_at is not None and rnd.randrange(3):
+        order.remove(fatal_at)
+        order.insert(0, fatal_at)       # mostly joined first: nothing of the joiner may follow that join
     for k in order:
         kind, val = kinds[k]
-        how = rnd.randrange(4)
+        how = rnd.randrange(4) if k != fatal_at else 1
         if how == 0:
             continue                    # never joined: the host's wait still waits for it
         reps = 2 if how == 3 else 1
@@ -241,7 +246,9 @@ def run(args):
                     "trace_events": [e["e"] + ":" + str(e.get("c")) for e in t if e["e"] in K.KEEP][:60]})
     # ---- A: schedules chosen by TLC (random walks of HmsCores), replayed with the hooks as gates
     nsched = 400 if thorough else 120
-    scheds = K.export_schedules(rep, nsched, C.seed(), cancel=False) + K.export_schedules(rep, nsched // 2, C.seed() + 1, cancel=True)
+    scheds = K.export_schedules(rep, nsched, C.seed(), cancel=False) + K.export_schedules(rep, nsched // 2, C.seed() + 1, cancel=True) + \
+        K.export_schedules(rep, nsched // 2, C.seed() + 2, cancel=False, joins=3) + K.export_schedules(rep, nsched // 4, C.seed() + 3, cancel=True, joins=2)
+    rep.notes["schedules_with_joins"] = sum(1 for s in scheds if any(a == "JoinBegin" for p, a in s["hist"]))
     followed = 0
     rtraces = []
     rowners = []
